@@ -261,9 +261,19 @@ def gen_keyval(rng, tier):
             ops.append("kv.multi %s %s %d" % (hx(d), hx(","), n % 2))
             ops.append("kv.multi %s %s %d" % (hx(d), hx(", "), (n + 1) % 2))
             ops.append("kv.change %s %s %d 1 %s %s" % (hx(d), hx(","), n % 2, hx("a"), hx("Z")))
+    # the '=' merging loop (tokens "=" arise when white space is a delimiter): all strings over
+    # {a,=,space,comma} of length 5 / 6-7, both tokenizers, multipleKeyvals and changeKeyvals
+    for n in ([5, 6, 7] if thorough else [5, 6]):
+        for t in itertools.product("a= ,", repeat=n):
+            d = "".join(t)
+            if "=" not in d or (n >= 6 and rng.random() < 0.5):
+                continue
+            ops.append("kv.multi %s %s %d" % (hx(d), hx(", "), n % 2))
+            if n == 5:
+                ops.append("kv.change %s %s %d 1 %s %s" % (hx("f(" + d + ")"), hx(", "), (n + 1) % 2, hx("a"), hx("Z")))
     # 3. random longer raw descriptions built from procedure-like pieces
     nraw = 8000 if thorough else 1000
-    pieces = ["f(", ")", ",", "=", " ", "a", "b=1", "g(x=2,y=3)", "k = v", " ,", "((", "))", "h()", "=="]
+    pieces = ["f(", ")", ",", "=", " ", "a", "b=1", "g(x=2,y=3)", "k = v", " ,", "((", "))", "h()", "==", " = ", "= ="]
     for _ in range(nraw):
         d = "".join(rng.choice(pieces) for _ in range(rng.randint(1, 8)))
         r = rng.random()
@@ -452,4 +462,28 @@ def coverage_extra(cases, answers):
                     g["glob_star_free_patterns"] += 1
                 g["glob_stars_histogram"][str(k)] = g["glob_stars_histogram"].get(str(k), 0) + 1
     st.update(g)
+    kv = {"kv_rt_total": 0, "kv_rt_parsed": 0, "kv_rt_raised": 0, "kv_args_histogram": {}, "kv_raw_total": 0, "kv_raw_raised": 0}
+    vs = {"vars_total": 0, "vars_ok": 0, "vars_raised": 0, "vars_hang": 0, "vars_entries_histogram": {}, "vars_with_reference": 0}
+    dbl = {"dbl_rt_total": 0}
+    for c, a in zip(cases, answers):
+        ops = [l for l in c if l.strip() and not l.startswith(("case", "#", "="))]
+        for l, r in zip(ops, a):
+            t = l.split()
+            if t[0] in ("kv.rt", "kv.crt"):
+                kv["kv_rt_total"] += 1
+                kv["kv_rt_raised" if r.startswith("exc") else "kv_rt_parsed"] += 1
+                kv["kv_args_histogram"][t[2]] = kv["kv_args_histogram"].get(t[2], 0) + 1
+            elif t[0].startswith("kv."):
+                kv["kv_raw_total"] += 1
+                if r.startswith("exc"):
+                    kv["kv_raw_raised"] += 1
+            elif t[0] == "vars":
+                vs["vars_total"] += 1
+                vs["vars_raised" if r.startswith("exc") else "vars_hang" if r == "hang" else "vars_ok"] += 1
+                vs["vars_entries_histogram"][t[1]] = vs["vars_entries_histogram"].get(t[1], 0) + 1
+                if any("2428" in x for x in t[2:]):
+                    vs["vars_with_reference"] += 1
+            elif t[0] == "dbl.rt":
+                dbl["dbl_rt_total"] += 1
+    st.update(kv); st.update(vs); st.update(dbl)
     return {"distribution": st}
